@@ -16,5 +16,4 @@ MOD = "protocol::resp::verif_kani_resp"
 INJ = [("src/protocol/resp.rs", "c21.rs", "verif_kani_resp", MOD)]
 ATTR = ("#[kani::unwind(%d)]\n#[kani::stub(core::fmt::write, vk_fmt_write)]\n"
         "#[kani::stub(std::fmt::format, vk_fmt_format)]\n")
-STUBS = ("#[kani::stub(super::RespValue::read_line, read_line_model)]\n"
-         "#[kani::stub(std::alloc::dealloc, vk_dealloc)]\n")
+STUBS = "#[kani::stub(super::RespValue::read_line, read_line_model)]\n"
